@@ -2,6 +2,8 @@
 //!  Part A — weight-symbolic algorithms run on Graph, StableGraph (vacancies), GraphMap, Csr, MatrixGraph (reused ids)
 //!           encodings of the same abstract graph inside one path; answers must correspond under the node map.
 //!  Part B — structure-symbolic (EdgeFiltered keep bits over real hosts): Graph vs StableGraph with vacancies.
+#[path = "c07/partc.rs"]
+mod partc;
 use petgraph::algo::dominators::simple_fast;
 use petgraph::algo::articulation_points::articulation_points;
 use petgraph::algo::{
@@ -25,7 +27,7 @@ use symx::sym::*;
 use symx::topo::*;
 
 /// run f, attributing a panic to (algorithm, host); engine aborts are passed through
-fn guarded<R>(what: &str, f: impl FnOnce() -> R) -> Option<R> {
+pub(crate) fn guarded<R>(what: &str, f: impl FnOnce() -> R) -> Option<R> {
     match catch_unwind(AssertUnwindSafe(f)) {
         Ok(r) => Some(r),
         Err(p) => {
@@ -708,6 +710,11 @@ fn make(tier: &str, seed: u64) -> Vec<Box<dyn Harness>> {
     k4u.edges.truncate(6);
     k4u.id = "complete".into();
     v.push(Box::new(PartB { topo: k4u }));
+    // Part C hosts: simple topologies (no parallel edges: MatrixGraph, GraphMap and Csr cannot hold them)
+    v.push(Box::new(partc::PartC { topo: from_mask("C3", 3, 0x1ff, true) }));
+    v.push(Box::new(partc::PartC { topo: Topo { fam: "C4".into(), id: "sparse".into(), n: 4, directed: true, edges: vec![(0, 1), (1, 2), (2, 3), (0, 2), (1, 3), (3, 1), (2, 2), (3, 0)] } }));
+    v.push(Box::new(partc::PartC { topo: Topo { fam: "C4u".into(), id: "complete+loop".into(), n: 4, directed: false, edges: vec![(0, 1), (0, 2), (0, 3), (1, 2), (1, 3), (2, 3), (1, 1)] } }));
+    v.push(Box::new(partc::PartC { topo: Topo { fam: "C5u".into(), id: "sparse".into(), n: 5, directed: false, edges: vec![(0, 1), (1, 2), (2, 3), (3, 4), (4, 0), (1, 3), (2, 4), (0, 0)] } }));
     if thorough {
         let k5u = Topo { fam: "H5u".into(), id: "complete".into(), n: 5, directed: false, edges: (0..5).flat_map(|a| ((a + 1)..5).map(move |b| (a, b))).collect() };
         v.push(Box::new(PartB { topo: k5u }));
